@@ -9,3 +9,8 @@ schema("AddressAg", _sequence=TInt)
 schema("AddrGroup", _items=TList(TObj("AddressAg")), _name=TStr)
 schema("Port", _operator=TStr, _items=TList(TInt), _ports=TList(TInt), _sport=TStr, _protocol=TStr, _port_nr=TBool)
 schema("Wildcard", _prefix=TBV, _wildmask=TBV, _ncwb=TList(TInt), _prefixlen=TInt, _max_ncwb=TInt, ipnet=TOpt(TNet))
+schema("Ace", _action=TStr, _protocol=TObj("Protocol"), _srcaddr=TObj("Address"), _srcport=TObj("Port"),
+       _dstaddr=TObj("Address"), _dstport=TObj("Port"), _option=TObj("Option"))
+schema("Protocol", _number=TInt, _protocol_nr=TBool, _has_port=TBool)
+schema("Option", _line=TStr, _flags=TList(TStr), _logs=TList(TStr))
+schema("AddressBase", _type=TStr, _addrgroup=TStr, _wildcard=TOpt(TObj("Wildcard")), _items=TList(TObj("AddressBase")))
